@@ -397,6 +397,9 @@ def coordinator(check, tier, runs, budget_s, workers, vseed):
                         r["b"], r["hashseed"], r["rc"], last_start, r.get("unfinished"), r["stderr"][-1500:]))
             if len(violations) > 200:
                 break
+            if violations and os.environ.get("VERIF_STOP_ON_FIRST"):
+                stop_all_workers()      # development aid (seeded regression): one violation is enough
+                break
             submit()
     wall = time.time() - t0
     # ---- classify violations --------------------------------------------------
